@@ -1638,19 +1638,19 @@ func init() {
 	mk("C09", "exploration",
 		"case = cluster of 1..4 servers, dataset with 1..8 partitions and 1..3 replicas, 1..14 items, 2..6 dataset searches from any node with k from 1 to beyond the total, yield probability 0..40% at the fan-out/fan-in channel operations, seeded select order; optionally a crashed node (which may also be removed from the membership, before or after it goes down, so that no address is known for a listed replica), a blocked link or 30% response loss during the searches; the simulator records every SearchPartitions leg; non-trivial = at least one search executed; distinct = hash of the event log",
 		[]string{"dataset_searches", "searches_checked_against_union", "searches_with_several_legs", "legs_checked_against_direct_search", "searches_failed_loudly", "fault_partition", "fault_crash", "fault_drop_response", "node_removed_from_membership", "fault_stream_cut"},
-		genC09, execC09, shrinkC09, 1200, 40000)
+		genC09, execC09, shrinkC09, 3000, 60000)
 	mk("C10", "exploration",
 		"case = fault-free cluster of 1..4 servers, dataset with 1..8 partitions, 4..14 writes over 3..12 ids issued through random entry nodes (hosting or not hosting the owner) and both API paths (single, batch), optionally a restart of all nodes in the middle; every outcome must equal a sequential map, every id must live in exactly one partition; non-trivial = more than 2 outcomes compared; distinct = hash of the event log",
 		[]string{"outcomes_compared_with_sequential_map", "placements_checked", "node_restarts"},
-		genC10, execC10, shrinkC05, 800, 30000)
+		genC10, execC10, shrinkC05, 2000, 40000)
 	mk("C11", "exploration",
 		"case = cluster of 1..3 servers, dataset, 4..12 writes (single/batch, 40% overlapping, 12% with a wrong dimension) in one of four modes: fault-free (exact outcomes and batch error maps vs a sequential map), proposers paused between Propose and their wait until the entry is applied (hook H5), message faults + crash/isolation (an acknowledged success must be applied; porcupine register model), owner node removed from the address book while down; non-trivial = outcomes compared / acknowledged writes; distinct = hash of the event log",
 		[]string{"outcomes_compared_with_sequential_map", "fault_free_exact_outcome_runs", "overlapping_caller_runs", "faulty_runs", "proposers_paused", "acknowledged_writes", "indeterminate_writes", "node_removed_from_membership", "truth_checks_on_surviving_replicas"},
-		genC11, execC11, shrinkC05, 1200, 40000)
+		genC11, execC11, shrinkC05, 3000, 60000)
 	mk("C17", "exploration",
 		"case = cluster of 1..4 servers, dataset with 1..6 partitions and 1..3 replicas, 1..16 items (partitions end up with different sizes), SizeInfo asked on every node, yield probability 0..100% at the goroutine starts of the lookup loop; optionally a crashed node or a blocked link; non-trivial = at least one size request; distinct = hash of the event log",
 		[]string{"size_requests", "size_requests_with_remote_lookups", "sizes_checked_against_sum", "partitions_with_different_sizes", "size_failed_loudly", "fault_crash", "fault_partition", "node_removed_from_membership", "size_requests_while_replica_sets_change"},
-		genC17, execC17, shrinkC17, 1200, 40000)
+		genC17, execC17, shrinkC17, 3000, 60000)
 }
 
 var _ = math.Abs
